@@ -1254,6 +1254,8 @@ func TestCheck(t *testing.T) {
 			x.concurrentStream(vh.NewRand(env.Seed), 5*time.Second)
 		case "use":
 			x.useStream(vh.NewRand(env.Seed), 20)
+		case "status":
+			x.statusStream(3 * time.Second)
 		case "malformed":
 			b, _ := base64.StdEncoding.DecodeString(c.B64)
 			x.malformed("replayed", b)
@@ -1300,6 +1302,7 @@ func TestCheck(t *testing.T) {
 		}
 		x.concurrentStream(r.Fork(), cbudget)
 		x.useStream(r.Fork(), env.N(30, 8))
+		x.statusStream(1500 * time.Millisecond)
 		// which secret-typed field paths were actually set at least once
 		total := secretTypePaths(reflect.TypeOf(config.Config{}), "", 0, map[reflect.Type]int{})
 		covered := 0
